@@ -117,6 +117,34 @@ def run(ctx):
             junk = bytes(rng.below(256) for _ in range(1 + rng.below(70)))
         ch = partitions(rng, rng.choice([1, 2, 3]), b''.join(ms) + junk, rng.choice(['two', 'n']))
         sck(rng.choice('ab'), ch, ('sckjunk', ms))
+    # 6. every kind of message the peer can send, in every state of the session that has a connection, through handle_msg and
+    #    (black box) through tick(): none may panic the session task, legal in that state or not
+    ok_open = open_msg(65001, 30, [(65, struct.pack('>I', 65001)), (69, struct.pack('>HBB', 1, 1, 2))])
+    wire = [('keepalive', KEEPALIVE), ('update', UPDATE), ('update-nlri', hdr(23 + 4, 2) + b'\x00\x00\x00\x00' + b'\x18\x0a\x00\x01'),
+            ('routerefresh', hdr(23, 5) + b'\x00\x01\x00\x01'),
+            ('open', ok_open), ('open-v3', ok_open[:19] + b'\x03' + ok_open[20:]), ('open-badas', open_msg(65002, 90, [(65, struct.pack('>I', 65002))])),
+            ('open-hold1', open_msg(65001, 1, [])), ('open-16', open_msg(65003, 3, [])),
+            ('open-aperr', open_msg(65005, 90, [(65, struct.pack('>I', 65005)), (69, struct.pack('>HBB', 1, 1, 0))]))]
+    for code in range(8):
+        for sub in (0, 1, 2, 3, 8, 11):
+            for data in (b'', b'\x00\x04'):
+                wire.append(('notif-%d.%d%s' % (code, sub, '+d' if data else ''), hdr(21 + len(data), 3) + bytes([code, sub]) + data))
+    passive = ['e:ManualStartWithPassiveTcpEstablishment']
+    fsm_prefix = {
+        'Idle': [], 'Active': passive, 'OpenSent': passive + ['e:TcpConnectionConfirmed'],
+        'OpenConfirm': passive + ['e:TcpConnectionConfirmed', 'm:' + ok_open.hex()],
+        'Established': passive + ['e:TcpConnectionConfirmed', 'm:' + ok_open.hex(), 'm:' + KEEPALIVE.hex()],
+        # Connect with the connection still attached: tick() maps a failed OPEN (unparsable ADD-PATH capability) to Connect (K6)
+        'Connect': passive + ['e:TcpConnectionConfirmed', 't:' + open_msg(65005, 90, [(65, struct.pack('>I', 65005)), (69, struct.pack('>HBB', 1, 1, 0))]).hex()],
+    }
+    n_wire = 0
+    for st, pre in fsm_prefix.items():
+        for name, b in wire:
+            for via in ('m', 't'):
+                for delay in ((0, 1) if (quick and name.startswith('notif') and via == 't') is False else (rng.below(2),)):
+                    lines.append('FSM %d %d 90 1.1,2.1 %s' % (len(lines), delay, ';'.join(pre + ['%s:%s' % (via, b.hex())])))
+                    meta.append(('wire', st, name, via, delay))
+                    n_wire += 1
     path = os.path.join(d, 'cases.txt')
     with open(path, 'w') as f:
         f.write('\n'.join(lines) + '\n')
@@ -131,7 +159,7 @@ def run(ctx):
         if l is None:
             ctx.violation('no result from the implementation harness', case=lines[i][:300]); continue
         body = l.split(' ', 2)[2] if l.count(' ') >= 2 else ''
-        if 'PANIC' in body:
+        if 'PANIC' in body and m[0] != 'wire':
             ctx.violation('frame extraction panicked', case=lines[i][:600], impl=l[:300]); continue
         if m[0] == 'frames':
             stats['frames_cases'] += 1
@@ -139,6 +167,21 @@ def run(ctx):
             if body != want:
                 ctx.violation('the messages extracted differ from the messages sent (each once, in order, nothing left)', case=lines[i][:600],
                               impl=body[:300], want=want[:300])
+        elif m[0] == 'wire':
+            stats['wire_cases'] = stats.get('wire_cases', 0) + 1
+            flds = l.split(' ', 2)[2].split(' ; ')
+            nsteps = lines[i].split(' ', 5)[5].count(';') + 1
+            if len(flds) < nsteps:
+                stats['wire_prefix_incomplete'] = stats.get('wire_prefix_incomplete', 0) + 1
+                continue
+            last = flds[-1]
+            reached = flds[-2].split(',')[0] if len(flds) > 1 else 'Idle'
+            reached = reached.split(' ')[-1]
+            stats['wire_state_' + reached] = stats.get('wire_state_' + reached, 0) + 1     # with DelayOpen the prefixes end elsewhere
+            if 'PANIC' in last.split('|')[-1]:
+                ctx.violation('a message from the peer panicked the session task (state %s, message %s, through %s, DelayOpen %d)' % m[1:],
+                              case=lines[i][:600], impl=last[:200])
+            continue
         elif m[0] == 'sck':
             stats['socket_cases'] = stats.get('socket_cases', 0) + 1
             want = '%s end=%s' % (','.join(x.hex() for x in m[1]), m[2])
@@ -180,7 +223,7 @@ def run(ctx):
         'rule': 'streams of 1..5 messages (KEEPALIVE, UPDATE, NOTIFICATION, OPENs) cut at every split point, into one-octet reads, random '
                 'partitions, with empty reads; the same streams through the socket and Connection::read_frame (all messages coalesced into one write '
                 'with the close straight behind, every message its own write, one-octet writes, random partitions, streams cut inside a message, '
-                'junk behind good messages); every length value 0..39 and a sweep of the rest (all 65536 in the thorough tier) in a header '
+                'junk behind good messages); every kind of message (KEEPALIVE, UPDATEs, ROUTE-REFRESH, seven OPENs, NOTIFICATIONs of every code x six subcodes with and without data) sent in each of the six session states, through handle_msg and through tick(), with and without DelayOpen: no panic, model = implementation; every length value 0..39 and a sweep of the rest (all 65536 in the thorough tier) in a header '
                 'after a good message, for the extractor and for read_message; wrong markers, illegal types, arbitrary octets; extraction judged '
                 'against the messages sent; plus model = implementation',
         'input_distribution': stats,
